@@ -8,14 +8,8 @@ PROPS = {}
 NOT_APPLICABLE = {}
 PENDING_REASON = 'not yet claimed: the model, theorems and correspondence for this property are not committed yet (work in progress, see DESIGN.md section 9); no check is registered rather than an unsound one'
 
-PROPS['C24'] = dict(
-    props_v='Props/C24.v', harness='c24',
-    level_text='Proof, unbounded: C24_roundtrip (decode(encode h) = h and |encode h| = 62 for every handle in the Go field ranges), C24_layout / C24_offset_in_range / C24_write_local and corollaries (slots and checksum disjoint, every id maps to a whole slot, a slot write changes nothing else) are Coq theorems over Gallina text generated from encoding/handle.go, handle.go and the fs constants on every run. Tie: translator + value-level differential run (encode, decode incl. malformed buffers, offsets, slot writes, checksum placement).',
-    level_note='Trusted: Coq kernel, the translator (recognises the statement shapes of encode/decode and aborts otherwise), the harness; bytes.Buffer/encoding.binary/uuid.FromBytes modelled by their documented behaviour; directio.BlockSize=4096.',
-    technique='Coq proof (induction on byte lists, lia) over a model generated from the Go AST; differential check of codec and layout against the implementation',
-    trusted_base=[
-        'modelled: sop.Handle, encoding.encode/decode (Gallina text generated from the Go AST), fs block layout arithmetic; bytes.Buffer, uuid.FromBytes and encoding/binary are assumed to copy / convert as documented',
-        'external constant directio.BlockSize = 4096 is hard-wired in the translator',
-    ],
-    assumptions=['Unmarshal is called with a zero-valued target (as every caller in /repo does)'],
-)
+import glob, os, importlib.util
+for _f in sorted(glob.glob(os.path.join(os.path.dirname(os.path.abspath(__file__)), 'cfg', 'c*.py'))):
+    _spec = importlib.util.spec_from_file_location('cfg_' + os.path.basename(_f)[:-3], _f)
+    _m = importlib.util.module_from_spec(_spec); _spec.loader.exec_module(_m)
+    PROPS[_m.ID] = _m.ENTRY
